@@ -150,6 +150,19 @@ func (s *JSONDB) ReadStatusRecent(dagFile string, n int) []*model.StatusFile {
 }
 
 func (s *JSONDB) ReadStatusToday(dagFile string) (*model.Status, error) {
+	// A run that ends replaces its file by the compacted twin: a file that
+	// was listed a moment ago can be gone by the time it is read. That is not
+	// an error of the history; look again.
+	for attempt := 0; ; attempt++ {
+		status, err := s.readStatusToday(dagFile)
+		if err != nil && errors.Is(err, os.ErrNotExist) && attempt < 3 {
+			continue
+		}
+		return status, err
+	}
+}
+
+func (s *JSONDB) readStatusToday(dagFile string) (*model.Status, error) {
 	files, err := s.latestTodayFiles(dagFile, time.Now(), s.latestStatusToday)
 	if err != nil {
 		return nil, err
